@@ -135,6 +135,8 @@ def cmp_(F, R):
         for bb, desc, lab in p.decisions:
             if '::ne(' in desc and '.clock' in desc:
                 ne = bool_label(lab)
+            elif '::eq(' in desc and '.clock' in desc and bool_label(lab) is not None:
+                ne = not bool_label(lab)
             if desc.startswith('discr(') and lab in ('Equal', 'Less', 'Greater', 'otherwise'):
                 eqb = lab
         ret = str(p.ret)
